@@ -1,6 +1,7 @@
 import Proofs.C03.Codec
 import Proofs.C03.BatchThm
 import Proofs.C03.Toy
+import Proofs.E2E.C03
 /-!
 # C03 — BIP340 Schnorr: sign, verify and batch-verify agree with the BIP
 
@@ -253,5 +254,116 @@ example : batchVerify Toy.ops Toy.prm (fun _ => 5) [⟨[1, 2], 2, ⟨1, 4⟩⟩,
 example : Gen.Schnorr.TAG_AUX.map (fun b => Char.ofNat b.toNat) = "BIP0340/aux".toList ∧
     Gen.Schnorr.TAG_NONCE.map (fun b => Char.ofNat b.toNat) = "BIP0340/nonce".toList ∧
     Gen.Schnorr.TAG_CHALLENGE.map (fun b => Char.ofNat b.toNat) = "BIP0340/challenge".toList := by decide
+
+end Props.C03
+
+/-! ## End to end: the same theorems about `Btc.EC.ops C`, no `Lawful` hypothesis
+
+`L : Lawful o G` above is discharged by C01's capstone `Btc.C01.lawful_ec`, for every curve with `CurveOk p C` (p prime
+≠ 2, n an odd prime, generator reduced, on the curve, of order n) and `p ≡ 3 (mod 4)` (proofs: Proofs/E2E/C03.lean).
+T1 is about the raw integer pairs of `Btc.EC.ops C` (sign and verify both).  T2–T4 are over `opsSub K`: `Btc.EC.ops C`
+applied to the underlying pairs (`Btc.C01.opsSub_val`), `lift_x` answering only inside the `n`-torsion — which on a
+curve with a cofactor the unrestricted `lift_x` leaves; what `verify_` accepts over `opsSub K` it accepts over
+`Btc.EC.ops C` (`verify_sub_imp_ec`).  For secp256k1 (generated constants) the only hypotheses are the primality of
+`p` and `n`: the rest of `CurveOk` is computed by the kernel (`Btc.E2E.secpOk`). -/
+namespace Props.C03
+open Btc Btc.EC Btc.C01 Btc.E2E Btc.Schnorr
+
+/-- T1 on btclib's arithmetic, any curve -/
+theorem sign_verifies_ec {p : ℕ} [Fact p.Prime] {C : Curve} (K : CurveOk p C) (h34 : p % 4 = 3) (prm : Params)
+    (fuel : ℕ) (msg : Bytes) (q : ℤ) (aux : Bytes) (sg : Sig) (h : sign (EC.ops C) prm fuel msg q aux = .ok sg) :
+    verify (EC.ops C) prm msg ((EC.ops C).x ((EC.ops C).mul q C.G)) sg = true :=
+  Btc.E2E.sign_verifies_ec K h34 prm fuel msg q aux sg h
+
+/-- `sign_` run over `opsSub K` IS `sign_` run over `Btc.EC.ops C`; `verify_` over `opsSub K` implies it over
+    `Btc.EC.ops C` -/
+theorem sign_sub_eq_ec {p : ℕ} [Fact p.Prime] {C : Curve} (K : CurveOk p C) (h34 : p % 4 = 3) (prm : Params)
+    (fuel : ℕ) (msg : Bytes) (q : ℤ) (aux : Bytes) :
+    sign (opsSub K) prm fuel msg q aux = sign (EC.ops C) prm fuel msg q aux :=
+  sign_opsSub K h34 prm fuel msg q aux
+
+theorem verify_sub_imp_ec {p : ℕ} [Fact p.Prime] {C : Curve} (K : CurveOk p C) (prm : Params) (msg : Bytes)
+    (xQ : ℤ) (sg : Sig) (h : verify (opsSub K) prm msg xQ sg = true) : verify (EC.ops C) prm msg xQ sg = true :=
+  verify_opsSub_imp K prm msg xQ sg h
+
+/-- T2 over `opsSub K`, any curve -/
+theorem verify_iff_ec {p : ℕ} [Fact p.Prime] {C : Curve} (K : CurveOk p C) (h34 : p % 4 = 3) (prm : Params)
+    (msg : Bytes) (xQ : ℤ) (sg : Sig) :
+    verify (opsSub K) prm msg xQ sg = true ↔
+      0 ≤ sg.r ∧ sg.r < C.p ∧ 0 ≤ sg.s ∧ sg.s < C.n ∧
+      ∃ Q, (opsSub K).liftX xQ = some Q ∧
+        challengeInt (EC.ops C) prm msg xQ sg.r ≠ 0 ∧
+        (EC.ops C).isZero ((EC.ops C).sub ((EC.ops C).mul sg.s C.G)
+          ((EC.ops C).mul (challengeInt (EC.ops C) prm msg xQ sg.r) Q.1)) = false ∧
+        (EC.ops C).hasEvenY ((EC.ops C).sub ((EC.ops C).mul sg.s C.G)
+          ((EC.ops C).mul (challengeInt (EC.ops C) prm msg xQ sg.r) Q.1)) = true ∧
+        (EC.ops C).x ((EC.ops C).sub ((EC.ops C).mul sg.s C.G)
+          ((EC.ops C).mul (challengeInt (EC.ops C) prm msg xQ sg.r) Q.1)) = sg.r :=
+  Btc.E2E.verify_iff_ec K h34 prm msg xQ sg
+
+/-- T3 over `opsSub K`, any curve -/
+theorem batch_complete_ec {p : ℕ} [Fact p.Prime] {C : Curve} (K : CurveOk p C) (h34 : p % 4 = 3) (prm : Params)
+    (coef : ℕ → ℤ) (items : List Item) (hne : items ≠ [])
+    (hall : ∀ it ∈ items, verify (opsSub K) prm it.msg it.xQ it.sg = true) :
+    batchVerify (opsSub K) prm coef items = true :=
+  Btc.E2E.batch_complete_ec K h34 prm coef items hne hall
+
+/-- T4 (one bad member) over `opsSub K`, any curve -/
+theorem batch_one_bad_fails_ec {p : ℕ} [Fact p.Prime] {C : Curve} (K : CurveOk p C) (h34 : p % 4 = 3)
+    (prm : Params) (coef : ℕ → ℤ) (it0 it1 : Item) (rest : List Item) (j : ℕ) (bad : Item)
+    (hj : (it0 :: it1 :: rest)[j]? = some bad)
+    (hbad : verify (opsSub K) prm bad.msg bad.xQ bad.sg = false)
+    (hothers : ∀ k it', (it0 :: it1 :: rest)[k]? = some it' → k ≠ j →
+      verify (opsSub K) prm it'.msg it'.xQ it'.sg = true)
+    (hcoef : ¬ C.n ∣ coefAt coef j) :
+    batchVerify (opsSub K) prm coef (it0 :: it1 :: rest) = false :=
+  Btc.E2E.batch_one_bad_fails_ec K h34 prm coef it0 it1 rest j bad hj hbad hothers hcoef
+
+/-- T1 on secp256k1: the ONLY hypotheses are the primality of `p` and of `n` -/
+theorem sign_verifies_secp256k1 (hp : Nat.Prime secp256k1_p) (hn : Nat.Prime secp256k1_n) (prm : Params)
+    (fuel : ℕ) (msg : Bytes) (q : ℤ) (aux : Bytes) (sg : Sig)
+    (h : sign (EC.ops secp256k1) prm fuel msg q aux = .ok sg) :
+    verify (EC.ops secp256k1) prm msg ((EC.ops secp256k1).x ((EC.ops secp256k1).mul q secp256k1.G)) sg = true :=
+  Btc.E2E.sign_verifies_secp256k1 hp hn prm fuel msg q aux sg h
+
+/-- T2 on secp256k1 (`secpOps hp hn` = `opsSub` of secp256k1: `Btc.E2E.secpOps_val`) -/
+theorem verify_iff_secp256k1 (hp : Nat.Prime secp256k1_p) (hn : Nat.Prime secp256k1_n) (prm : Params)
+    (msg : Bytes) (xQ : ℤ) (sg : Sig) :
+    verify (secpOps hp hn) prm msg xQ sg = true ↔
+      0 ≤ sg.r ∧ sg.r < secp256k1.p ∧ 0 ≤ sg.s ∧ sg.s < secp256k1.n ∧
+      ∃ Q, (secpOps hp hn).liftX xQ = some Q ∧
+        challengeInt (EC.ops secp256k1) prm msg xQ sg.r ≠ 0 ∧
+        (EC.ops secp256k1).isZero ((EC.ops secp256k1).sub ((EC.ops secp256k1).mul sg.s secp256k1.G)
+          ((EC.ops secp256k1).mul (challengeInt (EC.ops secp256k1) prm msg xQ sg.r) Q.1)) = false ∧
+        (EC.ops secp256k1).hasEvenY ((EC.ops secp256k1).sub ((EC.ops secp256k1).mul sg.s secp256k1.G)
+          ((EC.ops secp256k1).mul (challengeInt (EC.ops secp256k1) prm msg xQ sg.r) Q.1)) = true ∧
+        (EC.ops secp256k1).x ((EC.ops secp256k1).sub ((EC.ops secp256k1).mul sg.s secp256k1.G)
+          ((EC.ops secp256k1).mul (challengeInt (EC.ops secp256k1) prm msg xQ sg.r) Q.1)) = sg.r :=
+  Btc.E2E.verify_iff_secp256k1 hp hn prm msg xQ sg
+
+/-- T3 on secp256k1 -/
+theorem batch_complete_secp256k1 (hp : Nat.Prime secp256k1_p) (hn : Nat.Prime secp256k1_n) (prm : Params)
+    (coef : ℕ → ℤ) (items : List Item) (hne : items ≠ [])
+    (hall : ∀ it ∈ items, verify (secpOps hp hn) prm it.msg it.xQ it.sg = true) :
+    batchVerify (secpOps hp hn) prm coef items = true :=
+  Btc.E2E.batch_complete_secp256k1 hp hn prm coef items hne hall
+
+/-- T4 (one bad member) on secp256k1 -/
+theorem batch_one_bad_fails_secp256k1 (hp : Nat.Prime secp256k1_p) (hn : Nat.Prime secp256k1_n) (prm : Params)
+    (coef : ℕ → ℤ) (it0 it1 : Item) (rest : List Item) (j : ℕ) (bad : Item)
+    (hj : (it0 :: it1 :: rest)[j]? = some bad)
+    (hbad : verify (secpOps hp hn) prm bad.msg bad.xQ bad.sg = false)
+    (hothers : ∀ k it', (it0 :: it1 :: rest)[k]? = some it' → k ≠ j →
+      verify (secpOps hp hn) prm it'.msg it'.xQ it'.sg = true)
+    (hcoef : ¬ secp256k1.n ∣ coefAt coef j) :
+    batchVerify (secpOps hp hn) prm coef (it0 :: it1 :: rest) = false :=
+  Btc.E2E.batch_one_bad_fails_secp256k1 hp hn prm coef it0 it1 rest j bad hj hbad hothers hcoef
+
+-- non-vacuity: on `y² = x³ + 7` over `F₄₃` (31 points) `CurveOk` is PROVED, nothing is assumed: actual signing runs
+-- of btclib's arithmetic, the verdict T1 gives on them, and a two-member batch of them passing for every coefficients
+example : sign (EC.ops toyC) toyPrm 5 [1, 2] 3 [0] = .ok ⟨2, 19⟩ := toy_schnorr_sign1
+example : verify (EC.ops toyC) toyPrm [1, 2] 35 ⟨2, 19⟩ = true := toy_schnorr_verifies
+example (coef : ℕ → ℤ) :
+    batchVerify (opsSub toyOk) toyPrm coef [⟨[1, 2], 35, ⟨2, 19⟩⟩, ⟨[9], 21, ⟨29, 5⟩⟩] = true := toy_batch coef
 
 end Props.C03
